@@ -2,6 +2,7 @@ package props
 
 import (
 	"fmt"
+	"strings"
 	"unsafe"
 
 	"verif/harness/core"
@@ -78,9 +79,11 @@ var badKinds = []struct {
 	{"struct with []chan field", func() interface{} { return BadChanSlice{A: 1, L: []chan int{theChan}, End: 2} }, false},
 	{"struct with map[string]func()", func() interface{} { return BadFuncMap{A: 1, M: map[string]func(){"f": theFunc}, End: 2} }, false},
 	{"nested struct with complex field", func() interface{} { return &BadNestedStruct{A: 1, P: &BadChanField{C: theChan}, End: 2} }, true},
+	{"struct with a nil chan field", func() interface{} { return &BadChanField{A: 1, End: 2} }, true},
+	{"struct with a nil func field", func() interface{} { return BadFuncField{A: 1, End: 2} }, false},
 }
 
-var badPositions = []string{"top", "field", "list[first]", "list[middle]", "list[last]", "map value", "map key", "nested.field", "nested.nested.field",
+var badPositions = []string{"in a self-containing list inside a list", "in a self-containing map inside a list", "top", "field", "list[first]", "list[middle]", "list[last]", "map value", "map key", "nested.field", "nested.nested.field",
 	"list in list", "map in list", "list in map", "top-level list element", "top-level map value", "nested.list[last]"}
 
 // place builds a value with bad at the given position; ctxChoices fill the surroundings.
@@ -115,6 +118,18 @@ func placeBad(pos string, bad interface{}, ch *explore.Chooser) interface{} {
 		return m
 	}
 	switch pos {
+	case "in a self-containing list inside a list":
+		// cyc contains itself and the bad value; formatting it (an error message with %v) never ends
+		cyc := make([]interface{}, 2)
+		cyc[0] = bad
+		cyc[1] = cyc
+		h.L = []interface{}{int32(1), cyc}
+		return h
+	case "in a self-containing map inside a list":
+		cyc := map[string]interface{}{"bad": bad}
+		cyc["self"] = cyc
+		h.L = []interface{}{cyc, int32(2)}
+		return h
 	case "top":
 		return bad
 	case "field":
@@ -149,11 +164,20 @@ func placeBad(pos string, bad interface{}, ch *explore.Chooser) interface{} {
 	return h
 }
 
+// decodesBack reports whether the library's own decoder accepts the bytes (with maps extracted from the value).
+func decodesBack(val interface{}, b []byte) bool {
+	tm, _, p := Maps(val)
+	if p != "" {
+		return false
+	}
+	return Decode(b, tm).OK()
+}
+
 func init() {
 	core.Register(&core.Prop{
 		ID: "C13", Level: "model_checking",
 		Rule:        "Exhaustive enumeration (choice explorer) of bad kind (13: channel, function, complex64/128, unsafe.Pointer, slices/maps/structs containing them, directly and nested) x position (15: top level, struct field, first/middle/last list element, map value, map key, one and two nesting levels, containers in containers, top-level containers) x surroundings (other field values, sibling elements and entries, <=k deviations), plus typed struct fields of the bad kinds. Each case is one real ToBytes call. Oracle: it returns, does not panic, and returns a non-nil error; if it returns nil the bytes are parsed by R1 and the discrepancy is recorded. Non-trivial: all cases (each contains an unrepresentable value); distinct by (kind, position, surroundings).",
-		Assumptions: []string{"nil channels/functions and uintptr are left out (writing null / a long for them is arguably right)", "unhashable bad values are not used as map keys"},
+		Assumptions: []string{"nil channels/functions in interface slots and uintptr are left out (writing null / a long for them is arguably right); a nil chan / func in a TYPED struct field is refused today, and if an encoder accepts it the bytes must decode back with the library's own decoder", "unhashable bad values are not used as map keys"},
 		Units: func(tier string) []core.Unit {
 			bound := tierPick(tier, 2, 4)
 			var us []core.Unit
@@ -188,6 +212,8 @@ func init() {
 								switch {
 								case enc.Panic != "":
 									c.Report(&core.Violation{Stage: "encode", Kind: "panic", Shape: shape, Message: msgClass(enc.Panic), Case: desc, Choices: ch.Choices()})
+								case enc.Err == nil && strings.Contains(bk.name, " nil ") && decodesBack(val, enc.Bytes):
+									c.Outcome("accepted-and-decodes-back")
 								case enc.Err == nil:
 									det := ""
 									if pv, err := rh.ParseOne(enc.Bytes); err != nil {
